@@ -3,11 +3,11 @@ import PsModel.Model.C15
 import PsModel.Spec.C15
 /-! line-protocol front end of the C15 model
 
-`C15 (<L|N> (cfg <state> <time> <event> <mqtt> <timeout>) (tb st ev evl mq mql tasks) v call (hist (t item) ...))`
+`C15 (<L|N|Lp|Np> (cfg <state> <time> <event> <mqtt> <timeout>) (tb st ev evl mq mql tasks) v call (hist (t item) ...))`
 * state = `none | (st <fn> checkNow parseOK)`     event = `none | (ev <fn>|nofilt parseOK)`     mqtt = `none | (mq parseOK)`
 * fn    = `(gt n) | (ge n) | (eq n) | (ne n) | (const b) | (raiseat n <fn>)`  (raises when the argument is `n`)
 * time  = `none | (abs t) | (rel d)`        timeout = `none | n`        item = `(s v) | (e d) | (c)`
-The tables are given / printed as counts; the call's own queue is number 7, pre-existing ones 100, 101, ….
+`L`/`N` run the machines with `Flags.current`, `Lp`/`Np` with `Flags.preFix`.  The tables are given / printed as counts; the call's own queue is number 7, pre-existing ones 100, 101, ….
 -/
 namespace PsModel.C15
 open PsModel
@@ -102,7 +102,8 @@ def handle (x : Sexp) : String :=
     match state? st, time? tm, event? ev, mqtt? mq, timeout? to, tables? tb, v.nat?, call.nat?, Sexp.mapM? item? items with
     | some s, some t, some e, some m, some o, some tbl, some v0, some c, some hist =>
       let cfg : Cfg := { state := s, time := t, event := e, mqtt := m, timeout := o }
-      let r := if mode == "L" then Legacy.runAt cfg 7 tbl v0 c hist else New.runAt cfg 7 tbl v0 c hist
+      let fl := if mode == "Lp" || mode == "Np" then Flags.preFix else Flags.current
+      let r := if mode == "L" || mode == "Lp" then Legacy.runAt fl cfg 7 tbl v0 c hist else New.runAt fl cfg 7 tbl v0 c hist
       let sp := Spec.first cfg (valueAt v0 c hist) c (after c hist)
       s!"ok {showExit r.1} {showTables r.2} ## {showExit sp}"
     | _, _, _, _, _, _, _, _, _ => "err parse"
